@@ -71,7 +71,11 @@ class BitBuffer:
 
     def flush(self) -> None:
         if self._type is not None:
-            self._type._write(self.stream, self._buffer)
+            value = self._buffer
+            if _is_signed(self._type) and value >> (self._type.size * 8 - 1):
+                # The unit is accumulated as an unsigned bit pattern, reinterpret it for signed storage types
+                value -= 1 << (self._type.size * 8)
+            self._type._write(self.stream, value)
         self._type = None
         self._remaining = 0
         self._buffer = 0
@@ -80,3 +84,12 @@ class BitBuffer:
         self._type = None
         self._buffer = 0
         self._remaining = 0
+
+
+def _is_signed(type_: type[BaseType]) -> bool:
+    """Whether the given storage type reads and writes two's complement signed integers."""
+    signed = getattr(type_, "signed", None)
+    if signed is None:
+        # Packed integer types carry their signedness in the struct format character
+        signed = getattr(type_, "packchar", None) in ("b", "h", "i", "l", "q")
+    return bool(signed)
